@@ -1,0 +1,99 @@
+//go:build verif
+
+package meshops
+
+// Contracts for the deductive checks in /verif (comment-only; compiled only with -tags verif).
+// Properties C01 (frame: default "modifies nothing"), C02 (well-formedness closed), C03 (does what it
+// says and nothing else). Vocabulary (wf, sameAttrs, valInRange, ...) is defined in package modeling.
+
+//@ func RequireTopology pure
+//@   props C02 C03
+//@ func RequireV1Attribute pure
+//@ func RequireV2Attribute pure
+//@ func RequireV3Attribute pure
+//@ func RequireV4Attribute pure
+//@ func check pure
+
+// ---- flip winding: swap the first two corners of every triangle, nothing else -------------------------
+//@ func FlipTriangleWinding
+//@   props C01 C02 C03
+//@   requires triangles: len(m.indices) % 3 == 0
+//@   returns r
+//@   ensures attributes_untouched: modeling.sameAttrs(r, m) && r.materials == m.materials && r.topology == m.topology && m.topology == modeling.TriangleTopology
+//@   ensures same_count: len(r.indices) == len(m.indices) && fresh(r.indices)
+//@   ensures first_two_corners_swapped: forall t int :: 0 <= t && 3*t + 2 < len(m.indices) ==>
+//@       r.indices[3*t] == m.indices[3*t+1] && r.indices[3*t+1] == m.indices[3*t] && r.indices[3*t+2] == m.indices[3*t+2]
+//@   ensures [C02] well_formed: modeling.wf(m) ==> modeling.wf(r)
+//@   loop 1:
+//@     invariant bounds: 0 <= triIndex && triIndex <= len(m.indices) && triIndex % 3 == 0 && len(finalTris) == len(m.indices) && fresh(finalTris) && off(finalTris) == 0
+//@     invariant swapped: forall t int :: 0 <= t && 3*t + 2 < triIndex ==>
+//@       finalTris[3*t] == m.indices[3*t+1] && finalTris[3*t+1] == m.indices[3*t] && finalTris[3*t+2] == m.indices[3*t+2]
+//@     invariant [C02] in_range: modeling.idxOK(m) ==> forall j int :: 0 <= j && j < triIndex ==> modeling.valInRange(m, finalTris[j])
+
+// ---- remove unreferenced vertices: compaction with the counting function count(used, i) ----------------
+// (count(s, n) = number of true entries among s[0..n), engine builtin)
+//@ func removedUnreferenced
+//@   props C01 C02 C03
+//@   callback retriever: fresh
+//@   requires lens: forall j int :: 0 <= j && j < len(attributes) ==> len(retriever(attributes[j]).data) == len(used)
+//@   returns r
+//@   ensures [C01,C02,C03] fresh_map: fresh(r) && r != nil
+//@   ensures only_listed: forall k string :: has(r, k) ==> exists j int :: 0 <= j && j < len(attributes) && attributes[j] == k
+//@   ensures [C01,C02,C03] compacted: forall j int :: 0 <= j && j < len(attributes) ==>
+//@       (count(used, len(used)) > 0 ==> has(r, attributes[j]) && fresh(r[attributes[j]]) && len(r[attributes[j]]) == count(used, len(used))) &&
+//@       (count(used, len(used)) == 0 ==> !has(r, attributes[j]))
+//@   ensures [C01,C02,C03] by_key: forall k string :: has(r, k) ==> len(r[k]) == count(used, len(used)) && fresh(r[k])
+//@   loop 1:
+//@     invariant [C01,C02,C03] by_key: forall k string :: has(finalData, k) ==> len(finalData[k]) == count(used, len(used)) && fresh(finalData[k])
+//@     invariant [C01,C02,C03] map: fresh(finalData) && finalData != nil && $i <= len(attributes)
+//@     invariant only_listed: forall k string :: has(finalData, k) ==> exists j int :: 0 <= j && j < $i && attributes[j] == k
+//@     invariant [C01,C02,C03] compacted: forall j int :: 0 <= j && j < $i ==>
+//@       (count(used, len(used)) > 0 ==> has(finalData, attributes[j]) && fresh(finalData[attributes[j]]) && len(finalData[attributes[j]]) == count(used, len(used))) &&
+//@       (count(used, len(used)) == 0 ==> !has(finalData, attributes[j]))
+//@   loop 2:
+//@     invariant [C01,C02,C03] bounds: 0 <= i && i <= len(used) && data != nil && len(data.data) == len(used) && fresh(finalAtrVals) && len(finalAtrVals) == count(used, i)
+
+//@ func RemovedUnreferencedVertices$1 freshresult
+//@   requires has(m.v4Data, s)
+//@   ensures result.data == m.v4Data[s]
+//@ func RemovedUnreferencedVertices$2 freshresult
+//@   requires has(m.v3Data, s)
+//@   ensures result.data == m.v3Data[s]
+//@ func RemovedUnreferencedVertices$3 freshresult
+//@   requires has(m.v2Data, s)
+//@   ensures result.data == m.v2Data[s]
+//@ func RemovedUnreferencedVertices$4 freshresult
+//@   requires has(m.v1Data, s)
+//@   ensures result.data == m.v1Data[s]
+
+//@ func RemovedUnreferencedVertices
+//@   props C01 C02 C03
+//@   requires modeling.wf(m)
+//@   requires modeling.emptyOK(m)
+//@   returns r
+//@   ensures unchanged_parts: r.topology == m.topology && r.materials == m.materials
+//@   ensures same_index_count: len(r.indices) == len(m.indices) && fresh(r.indices)
+//@   ensures [C02] well_formed_lengths: modeling.sameLen(r)
+//@   ensures [C02] well_formed_indices: modeling.idxOK(r)
+//@   ensures [C02] well_formed_topology: modeling.topoOK(r)
+//@   loop 1:
+//@     invariant bounds: 0 <= i && i <= len(m.indices) && fresh(used) && off(used) == 0 && modeling.attrLenIs(m, len(used))
+//@     invariant marked: forall j int :: 0 <= j && j < i ==> used[m.indices[j]]
+//@     invariant idx_lt: forall j int :: 0 <= j && j < len(m.indices) ==> 0 <= m.indices[j] && m.indices[j] < len(used)
+//@   loop 2:
+//@     invariant bounds: 0 <= $i && $i <= len(shiftBy) && len(shiftBy) == len(used) && fresh(shiftBy) && off(shiftBy) == 0 && ref(shiftBy) != ref(used) && modeling.attrLenIs(m, len(used))
+//@     invariant marked: forall j int :: 0 <= j && j < len(m.indices) ==> used[m.indices[j]]
+//@     invariant idx_lt: forall j int :: 0 <= j && j < len(m.indices) ==> 0 <= m.indices[j] && m.indices[j] < len(used)
+//@     invariant [C02] vertex_used: forall j int :: 0 <= j && j < len(m.indices) ==> 1 <= count(used, m.indices[j] + 1) && count(used, m.indices[j] + 1) <= count(used, len(used))
+//@     invariant skipped_so_far: skipped == $i - count(used, $i)
+//@     invariant shifts: forall j int :: 0 <= j && j < $i ==> shiftBy[j] == (j + 1) - count(used, j + 1)
+//@   loop 3:
+//@     modifies finalIndices
+//@     invariant [C02] vertex_used: forall j int :: 0 <= j && j < len(m.indices) ==> 1 <= count(used, m.indices[j] + 1) && count(used, m.indices[j] + 1) <= count(used, len(used))
+//@     invariant [C02] names_kept_4: count(used, len(used)) > 0 ==> forall k string :: has(m.v4Data, k) ==> has(finalV4Data, k)
+//@     invariant [C02] names_kept_3: count(used, len(used)) > 0 ==> forall k string :: has(m.v3Data, k) ==> has(finalV3Data, k)
+//@     invariant [C02] names_kept_2: count(used, len(used)) > 0 ==> forall k string :: has(m.v2Data, k) ==> has(finalV2Data, k)
+//@     invariant [C02] names_kept_1: count(used, len(used)) > 0 ==> forall k string :: has(m.v1Data, k) ==> has(finalV1Data, k)
+//@     invariant bounds: 0 <= triI && triI <= len(finalIndices) && len(finalIndices) == len(m.indices) && fresh(finalIndices) && off(finalIndices) == 0
+//@     invariant compact_indices: forall j int :: 0 <= j && j < triI ==> 0 <= finalIndices[j] && finalIndices[j] < count(used, len(used))
+//@     invariant idx_lt: forall j int :: 0 <= j && j < len(m.indices) ==> 0 <= m.indices[j] && m.indices[j] < len(used)
